@@ -5,6 +5,7 @@
 -/
 import PySpikeVerif.Proofs.Reconcile
 import PySpikeVerif.Proofs.ApiLaws
+import PySpikeVerif.Proofs.ApiReconcile
 
 namespace PySpike.C13
 open PySpike
@@ -67,5 +68,42 @@ example : ∀ t ∈ [(⟨[1, 2, 3], 0, 4⟩ : Train), ⟨[], 0, 4⟩], t.ts = 0 
   rcases ht with rfl | rfl
   · refine ⟨rfl, rfl, by decide, by decide⟩
   · refine ⟨rfl, rfl, by simp, by simp⟩
+
+/-! ## every API function = its core on the reconciled trains (work package C4)
+
+`C4_ApiAgree kw₁ L₁ kw₂ L₂` states, for each of the 14 multivariate API functions of the model
+(profiles, distances, matrices, filter, order, directionality) and every `indices` / threshold /
+`normalize` argument, that the call with `(kw₁, L₁)` returns what the call with `(kw₂, L₂)` returns;
+`C4_ApiAgreeBi` is the same for the 11 bivariate entry points. -/
+
+/-- with `Reconcile=True` (the default) every multivariate API function is its
+    `Reconcile=False` core applied to the reconciled trains -/
+theorem api_is_core_of_reconciled (kw : Kw) (L : List Train) (h : kw.recon = true) :
+    C4_ApiAgree kw L { kw with recon := false } (reconcile L) := C4_api_eq_core_reconcile kw L h
+
+/-- … and every bivariate one -/
+theorem api_is_core_of_reconciled_bi (kw : Kw) (a b : Train) (h : kw.recon = true) :
+    C4_ApiAgreeBi kw a b { kw with recon := false } (reconcileBi a b).1 (reconcileBi a b).2 :=
+  C4_api_eq_core_reconcile_bi kw a b h
+
+/-- hence the order of the spikes inside a train and repeated spikes do not influence any result -/
+theorem api_order_and_repeats_irrelevant {L₁ L₂ : List Train} (kw : Kw) (hr : kw.recon = true)
+    (h : List.Forall₂ Train.sameSet L₁ L₂) : C4_ApiAgree kw L₁ kw L₂ :=
+  PySpike.api_order_and_repeats_irrelevant kw hr h
+
+theorem api_order_and_repeats_irrelevant_bi {a₁ b₁ a₂ b₂ : Train} (kw : Kw) (hr : kw.recon = true)
+    (ha : Train.sameSet a₁ a₂) (hb : Train.sameSet b₁ b₂) : C4_ApiAgreeBi kw a₁ b₁ kw a₂ b₂ :=
+  PySpike.api_order_and_repeats_irrelevant_bi kw hr ha hb
+
+/-- on already valid input the `Reconcile` switch changes no result of any API function -/
+theorem api_reconcile_switch_irrelevant (kw : Kw) (L : List Train) (ts te : Q)
+    (h : ∀ t ∈ L, t.ts = ts ∧ t.te = te ∧ t.spikes.Pairwise (· < ·) ∧ ∀ x ∈ t.spikes, ts ≤ x ∧ x ≤ te) :
+    C4_ApiAgree { kw with recon := true } L { kw with recon := false } L :=
+  PySpike.api_reconcile_switch_irrelevant kw L ts te h
+
+theorem api_reconcile_switch_irrelevant_bi (kw : Kw) (a b : Train) (ts te : Q)
+    (h : ∀ t ∈ [a, b], t.ts = ts ∧ t.te = te ∧ t.spikes.Pairwise (· < ·) ∧ ∀ x ∈ t.spikes, ts ≤ x ∧ x ≤ te) :
+    C4_ApiAgreeBi { kw with recon := true } a b { kw with recon := false } a b :=
+  PySpike.api_reconcile_switch_irrelevant_bi kw a b ts te h
 
 end PySpike.C13
